@@ -238,6 +238,19 @@ func genLegacyLayout(t *rapid.T, root, repo string, simpleOnly bool) *legacyLayo
 		fd := l.blob("sha256", raw)
 		l.index = append(l.index, mdesc{MediaType: mtIndex, Digest: fd, Size: int64(len(raw)), Annotations: map[string]string{annRefNameL: fallbackTag(sd)}})
 		l.desc = append(l.desc, fmt.Sprintf("fallback(s%d,%s,%d entries,adoptable=%v)", si, kind, len(ents), adoptable))
+		// the same index may carry an ordinary tag as well (listed before or after the fallback entry): one of the "other tags"
+		if !simpleOnly && rapid.IntRange(0, 4).Draw(t, "secondTagOnFallbackIndex") == 0 {
+			tag := fmt.Sprintf("keep%d", si)
+			ent := mdesc{MediaType: mtIndex, Digest: fd, Size: int64(len(raw)), Annotations: map[string]string{annRefNameL: tag}}
+			if n := len(l.index); rapid.Bool().Draw(t, "secondTagFirst") {
+				l.index = append(l.index[:n-1:n-1], ent, l.index[n-1])
+			} else {
+				l.index = append(l.index, ent)
+			}
+			l.tags[tag] = fd
+			l.manifests[fd] = mtIndex
+			l.desc = append(l.desc, fmt.Sprintf("second tag %s on the fallback index of s%d", tag, si))
+		}
 		if !l.converted {
 			for _, a := range listed {
 				addWant(a)
